@@ -382,6 +382,28 @@ def client_op(m, srv, ids, proxies, op):
         if isinstance(v, BaseProxy):
             proxies.append(v)
         return res
+    if kind == 'inherit':
+        # the proxy travels inside a Process object to a spawned / forkserver child: it is
+        # unpickled while current_process()._inheriting is set (RebuildProxy: incref=False) and
+        # takes its reference when the child runs the after-fork hooks -- here exactly the hooks
+        # that BaseProxy.__init__ registered for the new object
+        k = op[1]
+        if k >= len(proxies):
+            return ['noop']
+        blob = pickle.dumps(proxies[k])
+        cur = process.current_process()
+        cur._inheriting = True
+        try:
+            res, v = client_outcome(lambda: pickle.loads(blob))
+        finally:
+            del cur._inheriting
+        if isinstance(v, BaseProxy):
+            for (index, ident, func), obj in sorted(util._afterfork_registry.items(), key=lambda kv: kv[0][0]):
+                if obj is v:
+                    func(obj)
+            obj = None
+            proxies.append(v)
+        return res
     if kind == 'stale':
         _, pid, mid = op
         tok = Token('list', srv.address, ids.to_real(mid))
@@ -475,6 +497,10 @@ def worker_main(conn, inherited):
             conn.send(res)
         elif k == 'ping':
             conn.send(['ok'])
+        elif k == 'dropall':
+            del local[:]
+            gc.collect()
+            conn.send(['ok'])
         elif k == 'exit':
             conn.send(['ok'])
             conn.close()
@@ -523,8 +549,11 @@ def run_procs_case(case):
         b.close()
         workers[pid] = (pr, a)
 
-    for pid in (11, 12):                 # started while no proxy exists
-        spawn(pid, [])
+    def need(pid):                       # pre-forked clients, started lazily; they inherit the
+        if pid in (11, 12) and pid not in workers:
+            spawn(pid, mine)
+            ask(pid, ('ping',))
+            ask(pid, ('dropall',))
     mine = []                            # the parent's own proxies (pid 10)
     handles = []                         # owner pid of every live proxy, creation order
     out = []
@@ -552,8 +581,23 @@ def run_procs_case(case):
                     handles.append(10)
                 v = None
                 obs = res
+            elif kind == 'spawn':             # proxy k (the parent's) is a Process argument of a
+                _, k, pid = op                # spawn-context child: RebuildProxy(incref=False)
+                sctx = billiard.get_context('spawn')      # + after-fork hook in the child
+                a, b = sctx.Pipe(duplex=True)
+                inh = [mine[local_index(k)]]
+                pr = sctx.Process(target=worker_main, args=(b, inh))
+                pr.daemon = True
+                pr.start()
+                del inh[:]                    # (billiard keeps Process._args alive in the parent)
+                b.close()
+                workers[pid] = (pr, a)
+                ask(pid, ('ping',))
+                handles.append(pid)
+                obs = ['ok']
             elif kind == 'copy':
                 _, k, pid = op
+                need(pid)
                 if k < len(handles) and (pid == 10 or pid in workers):
                     src = handles[k]
                     blob = pickle.dumps(mine[local_index(k)]) if src == 10 else ask(src, ('dumps', local_index(k)))
